@@ -19,8 +19,22 @@ CLASS_PROPS = {
 NOTES = ('ctx-extra', 'cbn')   # regression notes, never a verdict (DESIGN 6/C09)
 
 
+def props_of(cls):
+    if cls in ('fault-ctx-nil', 'fault-ctx-missing'):
+        return ['C07', 'C09']
+    if cls.startswith('fault-'):
+        base = cls.split('-', 1)[1]
+        return [] if base in NOTES or base == 'catalogue' else ['C07']
+    if cls == 'hang':
+        return ['C07', 'C03', 'C06']
+    if cls.startswith('reuse-') or cls.startswith('resub-'):
+        base = cls.split('-', 1)[1]
+        return [] if base in NOTES or base == 'catalogue' else ['C12']
+    return CLASS_PROPS.get(cls, [])
+
+
 def gen_cfg(name, **kw):
-    c = dict(Vals='<- ValsNeg', MaxSteps=3, MaxIllegal=1, Cuts='FALSE', ChainSetName='"single"', SampleN=0)
+    c = dict(Vals='<- ValsNeg', MaxSteps=3, MaxIllegal=1, Cuts='FALSE', ChainSetName='"single"', SampleN=0, MaxSubs=1, FaultSetName='"none"')
     c.update(kw)
     lines = ['SPECIFICATION Spec', 'CONSTANTS'] + [(' %s %s' % (k, v)) if str(v).startswith('<-') else (' %s = %s' % (k, v)) for k, v in c.items()]
     lines += ['INVARIANTS TypeOK Grammar ClosedImpliesTorn EmitCase']
@@ -56,22 +70,19 @@ def run(rep, pid, cfgs, modes='ctl-unsafe,ctl-safe,sync', module='Gen', replay_c
             notes = {}
             for m in (res['mismatches'] or []):
                 cls = m['class']
-                if cls in NOTES:
+                if cls in NOTES or cls.split('-', 1)[-1] in NOTES:
                     notes[cls] = notes.get(cls, 0) + 1
                     continue
-                if pid not in CLASS_PROPS.get(cls, []):
+                if pid not in props_of(cls):
                     continue
                 comps = [x.split('(')[0] for x in m['chain'].split('|')]
                 raw = res['raw'].get(str(m['case']))
+                if raw and raw.get('fault', {}).get('stage', 0) >= 1:
+                    comps = [comps[raw['fault']['stage'] - 1]]    # the operator whose callback received the injected fault
                 rep.add_violation('pipeline.' + cls, '%s [%s step %d] %s' % (m['chain'], m['mode'], m['step'], m['detail']),
                                   replay_obj=dict(kind='pipeline', module=module, mode=m['mode'], case=raw, mismatch=m), components=comps)
             if notes:
                 rep.parts['gen:' + name]['notes'] = notes
-            # mismatch counts beyond the detailed list
-            total = sum(v for k, v in res['by_class'].items() if pid in CLASS_PROPS.get(k, []))
-            detailed = sum(1 for m in (res['mismatches'] or []) if pid in CLASS_PROPS.get(m['class'], []))
-            if total > detailed:
-                rep.inconclusive.append('%d further mismatches of %s not listed in detail' % (total - detailed, name))
     finally:
         shutil.rmtree(d, ignore_errors=True)
 
@@ -87,7 +98,7 @@ def replay_case(pid, path, replay_cmd='replay-pipeline'):
         out = os.path.join(d, 'res.json')
         vlib.run_harness([replay_cmd, '-in', gen, '-out', out, '-modes', rp['mode']])
         res = json.load(open(out))
-        bad = [m for m in (res['mismatches'] or []) if pid in CLASS_PROPS.get(m['class'], [])]
+        bad = [m for m in (res['mismatches'] or []) if pid in props_of(m['class'])]
         for m in bad:
             print('VIOLATION property=%s replay=%s  # %s %s' % (pid, path, m['class'], m['detail']))
         if not bad:
